@@ -143,7 +143,7 @@ impl<'a> BlockFilterHashesProcess<'a> {
                 }
             };
             let end_number = start_number + block_filter_hashes.len() as BlockNumber - 1;
-            if end_number > next_cached_check_point_number {
+            if end_number >= next_cached_check_point_number {
                 let diff = end_number - next_cached_check_point_number;
                 let index = block_filter_hashes.len() - (diff as usize) - 1;
                 let new_hash = &block_filter_hashes[index];
@@ -174,12 +174,15 @@ impl<'a> BlockFilterHashesProcess<'a> {
             // Update cached block filter hashes.
             let start_index = cached_hashes[index_offset..].len();
             let mut new_cached_hashes = cached_hashes;
-            if end_number > next_cached_check_point_number {
+            // The received block filter hashes could be fewer than the cached.
+            let new_size = if end_number > next_cached_check_point_number {
                 let excess_size = (end_number - next_cached_check_point_number) as usize;
-                let new_size = block_filter_hashes.len() - excess_size;
-                new_cached_hashes.extend_from_slice(&block_filter_hashes[start_index..new_size]);
+                block_filter_hashes.len() - excess_size
             } else {
-                new_cached_hashes.extend_from_slice(&block_filter_hashes[start_index..]);
+                block_filter_hashes.len()
+            };
+            if start_index < new_size {
+                new_cached_hashes.extend_from_slice(&block_filter_hashes[start_index..new_size]);
             }
             self.protocol
                 .peers
